@@ -561,6 +561,12 @@ func init() {
 						Service{Name: "shareB", Constructor: P("pk.New"), Getter: P("GetShared"), Tags: []Tag{{Name: "bad tag"}}},
 						Service{Name: "shareC", Constructor: P("pk.New"), Getter: P("GetShared")})
 				}, [][]string{{"GetShared", `"shareA"`, `"shareB"`, `"shareC"`}, {`"shareA"`, "calls"}, {`"shareB"`, "tags"}}},
+				{"duplicate-getters-not-neighbours", func(c *Cfg) {
+					c.Services = append(c.Services,
+						Service{Name: "n1", Constructor: P("pk.New"), Getter: P("GetX")}, Service{Name: "n2", Constructor: P("pk.New"), Getter: P("GetY")},
+						Service{Name: "n3", Constructor: P("pk.New"), Getter: P("GetX")}, Service{Name: "n4", Constructor: P("pk.New"), Getter: P("GetY")},
+						Service{Name: "n5", Constructor: P("pk.New"), Getter: P("1bad")})
+				}, [][]string{{"GetX", `"n1"`, `"n3"`}, {"GetY", `"n2"`, `"n4"`}, {`"n5"`, "getter"}}},
 				{"one-text-in-two-roles-invalid-second", func(c *Cfg) {
 					// "set-up" is a fine tag and service name, and no method, field or getter
 					c.Services = append(c.Services,
